@@ -8,6 +8,7 @@ mod introspect;
 mod props;
 mod purity;
 mod recorder;
+mod rewrite;
 mod rng;
 mod schemas;
 mod transform;
